@@ -16,6 +16,7 @@
 #include "algorithms/sequential/tbfalgorithmtsm.hpp"
 
 #include "world.hpp"
+#include <set>
 #include "weightkernel.hpp"
 
 namespace tbfsim {
@@ -229,6 +230,44 @@ public:
         } else { (void)perKernel; (void)merged; (void)mergeSeed; return false; }
     }
     bool isTaskBased() const override { return execIsTask(Exec); }
+    long query(uint64_t seed) override {
+        // every leaf and cell the tree holds must be found, at the recorded place; random other indexes must be found iff they exist
+        long wrong = 0;
+        Prng r(seed);
+        std::vector<std::pair<int, long>> leafIdx;
+        std::set<std::pair<int, long>> haveLeaf;
+        for (const LeafRec& l : tv.leaves) { leafIdx.emplace_back(l.tree, l.spaceIndex); haveLeaf.insert(std::make_pair(l.tree, l.spaceIndex)); }
+        const long upperBound = 1L << (3 * (sc.height - 1));
+        for (int k = 0; k < 8; ++k) leafIdx.emplace_back(int(r.below(Tsm ? 2 : 1)), long(r.below(uint64_t(upperBound > 0 ? upperBound : 1))));
+        // visit in a seeded order so that consecutive lookups jump between groups
+        for (size_t i = leafIdx.size(); i > 1; --i) std::swap(leafIdx[i - 1], leafIdx[size_t(r.below(i))]);
+        for (auto& q : leafIdx) {
+            bool found;
+            long gotIndex = -1;
+            if constexpr (Tsm) {
+                if (q.first == 0) { auto f = tree->findGroupWithLeafSource(q.second); found = bool(f); if (f) gotIndex = long((*f).first.get().getLeafSpacialIndex((*f).second)); }
+                else { auto f = tree->findGroupWithLeafTarget(q.second); found = bool(f); if (f) gotIndex = long((*f).first.get().getLeafSpacialIndex((*f).second)); }
+            } else {
+                auto f = tree->findGroupWithLeaf(q.second); found = bool(f); if (f) gotIndex = long((*f).first.get().getLeafSpacialIndex((*f).second));
+            }
+            const bool expect = haveLeaf.count(q) > 0;
+            if (found != expect || (found && gotIndex != q.second)) wrong += 1;
+        }
+        size_t step = tv.cells.size() > 64 ? tv.cells.size() / 64 : 1;
+        for (size_t i = 0; i < tv.cells.size(); i += step) {
+            const CellRec& c = tv.cells[i];
+            bool found;
+            long gotIndex = -1;
+            if constexpr (Tsm) {
+                if (c.tree == 0) { auto f = tree->findGroupWithCellSource(c.level, c.spaceIndex); found = bool(f); if (f) gotIndex = long((*f).first.get().getCellSpacialIndex((*f).second)); }
+                else { auto f = tree->findGroupWithCellTarget(c.level, c.spaceIndex); found = bool(f); if (f) gotIndex = long((*f).first.get().getCellSpacialIndex((*f).second)); }
+            } else {
+                auto f = tree->findGroupWithCell(c.level, c.spaceIndex); found = bool(f); if (f) gotIndex = long((*f).first.get().getCellSpacialIndex((*f).second));
+            }
+            if (!found || gotIndex != c.spaceIndex) wrong += 1;
+        }
+        return wrong;
+    }
 };
 
 
